@@ -185,6 +185,12 @@ func gen(t *rapid.T) Case {
 	if rapid.IntRange(0, 4).Draw(t, "make_palindrome") == 0 {
 		h := genString(t, "half", 60, alpha)
 		c.S = h + ref.RevComp(h)
+		if len(c.S) > 0 && rapid.IntRange(0, 2).Draw(t, "damage_one_case") == 0 {
+			// equal to its reverse complement but for the case of one letter: not a palindrome
+			b := []byte(c.S)
+			b[rapid.IntRange(0, len(b)-1).Draw(t, "damaged_at")] ^= 0x20
+			c.S = string(b)
+		}
 	} else {
 		c.S = genString(t, "s", maxLen, alpha)
 	}
